@@ -30,6 +30,9 @@ def build(t, anns=None):
             if isinstance(a, list) and a[0] == 'tok':
                 from prettyprinter.syntax import Token
                 anns[key] = Token[a[1]]
+            elif isinstance(a, list) and a[0] == 'raw':
+                # arbitrary annotation values are allowed: plain ints (equal to Token members!), unhashable values
+                anns[key] = {'int3': 3, 'int6': 6, 'int14': 14, 'list': ['x'], 'dict': {'k': 1}, 'str': 'LITERAL_STRING', 'none': None}[a[1]]
             else:
                 anns[key] = Opaque(a)
         return anns[key]
